@@ -11,7 +11,7 @@
        LevyMeasure.integrate_against_xn dispatch, of TruncatedLevyMeasure.integrate* and CGMY's recursion by hand. *)
 From Coq Require Import Reals Bool Arith.
 From Coquelicot Require Import Coquelicot.
-From RV Require Import Base.RB Gen.GenC09Hem Gen.GenC09Vg Gen.GenC09Trunc.
+From RV Require Import Base.RB Base.RSpecial Gen.GenC09Hem Gen.GenC09Vg Gen.GenC09Merton Gen.GenC09Trunc.
 Open Scope R_scope.
 
 Definition dflt : R -> R -> R := fun _ _ => 0.
@@ -28,15 +28,8 @@ Definition hem_integrate_xx INF lam p eta1 eta2 : R -> R -> R :=
 Definition hem_integrate_left lam p eta2 b : R := lam * (1 - p) * exp (eta2 * b).
 Definition hem_integrate_right lam p eta1 a : R := lam * p * exp (- eta1 * a).
 
-(* ---------------------------------------------------------------- special functions, by their meaning *)
-Definition erf (x : R) : R := 2 / sqrt PI * RInt (fun t => exp (- t ^ 2)) 0 x.
-(* E1(x) - E1(y) for 0 < x, y : the only way exp1 enters on finite intervals *)
+(* special functions (erf, E1c, Gupc) are defined by their integrals in Base/RSpecial.v *)
 Definition E1diff (x y : R) : R := RInt (fun t => exp (- t) / t) x y.
-(* an exponential integral "up to a constant": any function with E1 x - E1 y = E1diff x y; the theorems about
-   finite intervals hold for every value of the constant c0 = E1(1). *)
-Definition E1c (c0 x : R) : R := c0 - RInt (fun t => exp (- t) / t) 1 x.
-(* upper incomplete gamma  Gamma(s,x) = Gamma(s) * gammaincc(s,x)  up to the constant g0 = Gamma(s,1) *)
-Definition Gupc (g0 s x : R) : R := g0 - RInt (fun t => Rpower t (s - 1) * exp (- t)) 1 x.
 
 (* ---------------------------------------------------------------- VG (variancegamma.py) *)
 Definition vg_integrate_x INF c lm lp : R -> R -> R :=
